@@ -12,6 +12,7 @@ import (
 	"net/http/httptest"
 	"net/url"
 	"path"
+	"sort"
 	"strings"
 	"time"
 
@@ -193,6 +194,10 @@ type Resp struct {
 	Body   []byte
 	Panic  string // a handler panicked (in-process transport only; net/http's server swallows it)
 	Hang   bool   // no answer within the patience given
+	// Reached: templates of the routes whose handler started (instrumented in-process
+	// assemblies only; ReachKnown is false for the child-process checks).
+	Reached    []string
+	ReachKnown bool
 }
 
 func (p Resp) plainBody() []byte {
@@ -321,6 +326,17 @@ func Registered(router *mux.Router, q Req) (bool, string) {
 
 // judge applies the oracle to one exchange. log is the back-end call log of the request.
 func judge(s Settings, q Req, registered bool, tpl string, got Resp, log []string, wire bool) error {
+	return judgeX(s, q, registered, tpl, got, log, wire, nil)
+}
+
+// sentinelPath is a path nobody registers: what the router answers for it (same method,
+// same headers) is what "no route" looks like for this assembly, custom NotFoundHandler
+// included.
+const sentinelPath = "/c20/no/such/route"
+
+// judgeX is judge with, for a request without a route, the response of the same request
+// to sentinelPath.
+func judgeX(s Settings, q Req, registered bool, tpl string, got Resp, log []string, wire bool, sentinel *Resp) error {
 	if wire && q.HasAuth {
 		// net/http (textproto) strips optional white space around a field value: the
 		// server-side handler chain sees the trimmed header
@@ -338,17 +354,37 @@ func judge(s Settings, q Req, registered bool, tpl string, got Resp, log []strin
 	}
 	if !registered {
 		// no route: nothing may run, whoever asks
+		if got.ReachKnown && len(got.Reached) > 0 {
+			return fmt.Errorf("request without a registered route ran the handler of %q (status %d): %s", got.Reached, got.Status, where)
+		}
 		if len(log) > 0 {
 			return fmt.Errorf("request without a registered route reached the back end %v: %s", log, where)
 		}
 		switch got.Status {
-		case 401, 400, 404, 405, 301:
-			return nil
+		case 405, 301:
+			return nil // mux: method mismatch / redirect to the clean path, before anything else
+		case 401, 400:
+			// an authentication layer in front of the routing: must be its own answer
+			if ref, reachedRef := reference(s.Login, s.Password, q); !reachedRef && (bytes.Equal(got.plainBody(), ref.Body) || (q.Method == "HEAD" && wire)) {
+				return nil
+			}
+		case 404:
+			// mux's own 404, or a custom not-found page - then the same page a path nobody
+			// registered gets (a not-found handler that dispatches on the path is a router
+			// of its own, outside the middlewares)
+			if sentinel == nil || (sentinel.Status == 404 && bytes.Equal(got.plainBody(), sentinel.plainBody())) {
+				return nil
+			}
+			return fmt.Errorf("request without a registered route answered 404 with body %q where a path nobody registered (%s) gets %d %q: the not-found handling dispatches on the path: %s",
+				clip(got.plainBody()), sentinelPath, sentinel.Status, clip(sentinel.plainBody()), where)
 		}
 		return fmt.Errorf("request without a registered route answered %d (body %q): %s", got.Status, clip(got.Body), where)
 	}
 	denied := got.Status == 401 || got.Status == 400
 	checkDenied := func() error {
+		if got.ReachKnown && len(got.Reached) > 0 {
+			return fmt.Errorf("denied request (%d) still ran the handler of %q: %s", got.Status, got.Reached, where)
+		}
 		if len(log) > 0 {
 			return fmt.Errorf("denied request (%d) still reached the back end %v: %s", got.Status, log, where)
 		}
@@ -371,6 +407,13 @@ func judge(s Settings, q Req, registered bool, tpl string, got Resp, log []strin
 		}
 		if ref, reached := reference(s.Login, s.Password, q); !reached {
 			return fmt.Errorf("the authentication layer refuses the right credentials (%d %q): %s", ref.Status, clip(ref.Body), where)
+		}
+		// "lets a request with the right credentials through": through to the handler. A
+		// layer in front of it that answers by itself (403 for an unlisted Origin, say)
+		// does not. OPTIONS is exempt: a CORS layer may answer a preflight on its own.
+		if got.ReachKnown && len(got.Reached) == 0 && q.Method != "OPTIONS" {
+			return fmt.Errorf("right credentials, yet the handler of the route never started (status %d, body %q): something in front of it answered: %s",
+				got.Status, clip(got.plainBody()), where)
 		}
 		return nil
 	case DontCare:
@@ -411,4 +454,54 @@ func cleanPath(p string) string {
 		np += "/"
 	}
 	return np
+}
+
+// backendKinds reduces a back-end log to the kinds of entries (details such as byte counts
+// and the number of reconnects are not comparable between two runs).
+func backendKinds(log []string) string {
+	set := map[string]bool{}
+	for _, e := range log {
+		if i := strings.IndexByte(e, '('); i > 0 {
+			e = e[:i]
+		}
+		set[e] = true
+	}
+	var ks []string
+	for k := range set {
+		ks = append(ks, k)
+	}
+	sort.Strings(ks)
+	return strings.Join(ks, ",")
+}
+
+// diffTwin: for a request with the right credentials the assembly with authentication and
+// its twin without must be indistinguishable: status, whether a body came back, the CORS
+// answer, which handler started, which kinds of back-end calls were made.
+func diffTwin(q Req, wire bool, got, twin Resp, log, twinLog []string, compareLogs bool) error {
+	if got.Hang || twin.Hang {
+		return nil // not comparable (and only ever behind the right credentials)
+	}
+	var d []string
+	if (got.Panic != "") != (twin.Panic != "") {
+		d = append(d, fmt.Sprintf("handler panic %q vs %q", got.Panic, twin.Panic))
+	}
+	if got.Status != twin.Status {
+		d = append(d, fmt.Sprintf("status %d vs %d", got.Status, twin.Status))
+	}
+	if !(q.Method == "HEAD" && wire) && (len(got.Body) > 0) != (len(twin.Body) > 0) {
+		d = append(d, fmt.Sprintf("body %q vs %q", clip(got.plainBody()), clip(twin.plainBody())))
+	}
+	if a, b := got.Header.Get("Access-Control-Allow-Origin"), twin.Header.Get("Access-Control-Allow-Origin"); a != b {
+		d = append(d, fmt.Sprintf("Access-Control-Allow-Origin %q vs %q", a, b))
+	}
+	if got.ReachKnown && twin.ReachKnown && strings.Join(got.Reached, ",") != strings.Join(twin.Reached, ",") {
+		d = append(d, fmt.Sprintf("handlers started %q vs %q", got.Reached, twin.Reached))
+	}
+	if compareLogs && backendKinds(log) != backendKinds(twinLog) {
+		d = append(d, fmt.Sprintf("back end %q vs %q", backendKinds(log), backendKinds(twinLog)))
+	}
+	if len(d) == 0 {
+		return nil
+	}
+	return fmt.Errorf("authentication is not transparent for the right credentials (with auth vs. the same assembly without credentials configured): %s: %s", strings.Join(d, "; "), q)
 }
